@@ -14,6 +14,7 @@ CONSTANTS
   RecheckUnderLock = FALSE
   GuardedConn = FALSE
   PerCycleWG = TRUE
+  SubscribeMayFail = FALSE
   Script <- MCScript
 VIEW view
 INVARIANTS MutualExclusion FifoPrefix AtMostOnce ExactlyOnce NoPanic AfterShutdown NoLateStart Accounted
